@@ -229,50 +229,64 @@ def _unionlike(t):
     return False
 
 
-def law(v, name, ok, text, **w):
+def law(v, name, ok, text):
+    """`text` is a thunk: witnesses are only rendered for a broken law."""
     v.count("law_checks")
     v.count(f"law_{name.split('/')[0]}")
     if not ok:
-        v.bad(f"law:{name}", text, **w)
+        v.bad(f"law:{name}", text())
+
+
+def _srcclass(t):
+    """Trigger predicate of the Annotated-transparency laws: what the (bare) source is."""
+    ms = t[1] if t[0] == "union" else (t,)
+    if any(m[0] == "annot" and M.elem(m) is not None for m in ms):
+        return "array-source"
+    return "union-source" if t[0] == "union" else "plain-source"
 
 
 def check_laws(v, rng, a, b):
     """a, b normalised, neither NoAnnotation.  c = impl(a, b) is the pivot of the metamorphic laws."""
     c = impl(a, b)
     for t in (a, b):
-        law(v, "reflexivity", impl(t, t), f"{call(t, t)} is False")
-        law(v, "any-target", impl(t, ANY), f"{call(t, ANY)} is False")
-        law(v, "noannotation/target", impl(t, NOANN), f"{call(t, NOANN)} is False")
-        law(v, "noannotation/source", impl(NOANN, t), f"{call(NOANN, t)} is False")
+        law(v, "reflexivity", impl(t, t), lambda: f"{call(t, t)} is False")
+        law(v, "any-target", impl(t, ANY), lambda: f"{call(t, ANY)} is False")
+        law(v, "noannotation/target", impl(t, NOANN), lambda: f"{call(t, NOANN)} is False")
+        law(v, "noannotation/source", impl(NOANN, t), lambda: f"{call(NOANN, t)} is False")
     extra = M.rand_bounded(rng, 1)
     # union target needs one member
     u = norm(union(b, extra, style=rng.choice("U|")) if rng.random() < 0.5 else union(extra, b))
     if u[0] == "union" and not _unionlike(a):
         got, each = impl(a, u), [impl(a, m) for m in u[1]]
         law(v, "union-target-needs-one", got == any(each),
-            f"{call(a, u)} = {got} but member verdicts are {each}", source=show(a), target=show(u))
+            lambda: f"{call(a, u)} = {got} but the verdicts for the members of the target are {each}")
     # union source needs all members
     for s in {canon(x): x for x in (a, norm(union(a, extra)))}.values():
         if s[0] == "union":
             got, each = impl(s, b), [impl(m, b) for m in s[1]]
             law(v, "union-source-needs-all", got == all(each),
-                f"{call(s, b)} = {got} but member verdicts are {each}", source=show(s), target=show(b))
+                lambda: f"{call(s, b)} = {got} but the verdicts for the members of the source are {each}")  # noqa: B023
     # Annotated is transparent
     m1, m2 = rng.choice(M.METAS), rng.choice(M.METAS)
     a0, b0 = _strip(a), _strip(b)            # pivot on the bare pair so that each variant names one position
     c0 = impl(a0, b0)
     sa, tb = norm(annot(a0, m1)), norm(annot(b0, m2))
-    law(v, "annotated-transparent/source", impl(sa, b0) == c0, f"{call(sa, b0)} = {not c0} but {call(a0, b0)} = {c0}")
-    law(v, "annotated-transparent/target", impl(a0, tb) == c0, f"{call(a0, tb)} = {not c0} but {call(a0, b0)} = {c0}")
-    law(v, "annotated-transparent/both", impl(sa, tb) == c0, f"{call(sa, tb)} = {not c0} but {call(a0, b0)} = {c0}")
+    sc = _srcclass(a0)
+    law(v, f"annotated-transparent/source:{sc}", impl(sa, b0) == c0,
+        lambda: f"{call(sa, b0)} = {not c0} but {call(a0, b0)} = {c0}")
+    law(v, f"annotated-transparent/target:{sc}", impl(a0, tb) == c0,
+        lambda: f"{call(a0, tb)} = {not c0} but {call(a0, b0)} = {c0}")
+    law(v, f"annotated-transparent/both:{sc}", impl(sa, tb) == c0,
+        lambda: f"{call(sa, tb)} = {not c0} but {call(a0, b0)} = {c0}")
     # TypeVar targets
-    law(v, "typevar-target/free", impl(a, M.tv("T")), f"{call(a, M.tv('T'))} is False")
-    law(v, "typevar-target/bound", impl(a, M.tv("N")) == impl(a, INT),
-        f"{call(a, M.tv('N'))} differs from {call(a, INT)} = {impl(a, INT)} (N = TypeVar('N', bound=int))")
+    law(v, "typevar-target/free", impl(a, M.tv("T")), lambda: f"{call(a, M.tv('T'))} is False (T = TypeVar('T'))")
+    ci = impl(a, INT)
+    law(v, "typevar-target/bound", impl(a, M.tv("N")) == ci,
+        lambda: f"{call(a, M.tv('N'))} = {not ci} but {call(a, INT)} = {ci} (N = TypeVar('N', bound=int))")
     if not _unionlike(a):
-        e = impl(a, STR) or impl(a, INT)
+        e = impl(a, STR) or ci
         law(v, "typevar-target/constrained", impl(a, M.tv("S")) == e,
-            f"{call(a, M.tv('S'))} = {not e} but constraints str/int give {e} (S = TypeVar('S', str, int))")
+            lambda: f"{call(a, M.tv('S'))} = {not e} but the constraints str/int give {e} (S = TypeVar('S', str, int))")
     if max(M.depth(a), M.depth(b)) > 2:
         return
     # covariance of every constructor
@@ -286,18 +300,19 @@ def check_laws(v, rng, a, b):
     for name, f in cons.items():
         fa, fb = norm(f(a)), norm(f(b))
         got = impl(fa, fb)
-        law(v, f"covariance/{name}", got == c, f"{call(fa, fb)} = {got} but {call(a, b)} = {c}")
+        law(v, f"covariance/{name}", got == c, lambda: f"{call(fa, fb)} = {got} but {call(a, b)} = {c}")  # noqa: B023
     if c:
         oa, ob = norm(optional(a)), norm(optional(b))
-        law(v, "covariance/optional", impl(oa, ob), f"{call(oa, ob)} is False but {call(a, b)} is True")
+        law(v, "covariance/optional", impl(oa, ob), lambda: f"{call(oa, ob)} is False but {call(a, b)} is True")
     # arity
     t1, t2 = gen(tuple, a), gen(tuple, a, b)
-    law(v, "tuple-arity", not impl(t1, t2), f"{call(t1, t2)} is True")
-    law(v, "tuple-arity", not impl(t2, t1), f"{call(t2, t1)} is True")
+    law(v, "tuple-arity", not impl(t1, t2), lambda: f"{call(t1, t2)} is True")
+    law(v, "tuple-arity", not impl(t2, t1), lambda: f"{call(t2, t1)} is True")
     fixed, var = gen(tuple, a, a), gen(tuple, b, ELL)
-    law(v, "tuple-fixed-into-variadic", impl(fixed, var) == c, f"{call(fixed, var)} = {not c} but {call(a, b)} = {c}")
+    law(v, "tuple-fixed-into-variadic", impl(fixed, var) == c,
+        lambda: f"{call(fixed, var)} = {not c} but {call(a, b)} = {c}")
     var_a, fixed_b = gen(tuple, a, ELL), gen(tuple, b)
-    law(v, "tuple-variadic-into-fixed", not impl(var_a, fixed_b), f"{call(var_a, fixed_b)} is True")
+    law(v, "tuple-variadic-into-fixed", not impl(var_a, fixed_b), lambda: f"{call(var_a, fixed_b)} is True")
 
 
 # ------------------------------------------------------------------ pipelines
@@ -603,7 +618,7 @@ def run_case(desc):
                 v.classes.update({f"has_{M.kind(x)}" for x in _walk(t)})
             if not _trivial(a, b):
                 keys.append(short(show(a) + "=>" + show(b), 14))
-            if got is not None and NOANN not in (a, b):
+            if got is not None and NOANN not in (a, b) and i % 10 < 7:
                 try:
                     check_laws(v, rng, a, b)
                 except ImplError as ie:
